@@ -2,9 +2,9 @@ package main
 
 import (
 	"fmt"
-	"reflect"
 	"go/token"
 	"go/types"
+	"reflect"
 	"sort"
 	"strings"
 
@@ -578,7 +578,47 @@ func c02Cause(c *Ctx, r *Report) {
 		if !ok || fieldName(fa) != "Value" || !typeIs(fa.X.Type(), cdrTypePath, "CauseForRecClosing") {
 			return
 		}
+		// where does the value take effect: at the store itself, or - for a literal built
+		// in a local that is merged into a result variable - on the merge edge it arrives by
+		type arrival struct {
+			from, at *ssa.BasicBlock
+			// the literal is assigned to a struct variable (go/ssa keeps aggregates in memory):
+			// the assignment and the variable
+			varStore *ssa.Store
+			varAlloc *ssa.Alloc
+		}
+		var arrivals []arrival
+		if a, ok := fa.X.(*ssa.Alloc); ok && !a.Heap {
+			for _, ref := range *a.Referrers() {
+				ld, ok := ref.(*ssa.UnOp)
+				if !ok || ld.Op != token.MUL || ld.X != ssa.Value(a) {
+					continue
+				}
+				for _, r2 := range *ld.Referrers() {
+					switch y := r2.(type) {
+					case *ssa.Phi:
+						for i, e := range y.Edges {
+							if e == ssa.Value(ld) {
+								arrivals = append(arrivals, arrival{from: y.Block().Preds[i], at: y.Block()})
+							}
+						}
+					case *ssa.Store:
+						if va, ok := y.Addr.(*ssa.Alloc); ok && !va.Heap && y.Val == ssa.Value(ld) {
+							arrivals = append(arrivals, arrival{nil, y.Block(), y, va})
+						} else {
+							arrivals = append(arrivals, arrival{from: nil, at: y.Block()})
+						}
+					}
+				}
+			}
+		}
 		for _, lf := range leavesOf(st.Val) {
+			if lf.from == nil && len(arrivals) == 1 {
+				lf.from, lf.at = arrivals[0].from, arrivals[0].at
+				if lf.from == nil {
+					lf.at = nil
+				}
+			}
 			n++
 			v, isC := constInt(lf.val)
 			// which edge of `partial`?
@@ -593,7 +633,66 @@ func c02Cause(c *Ctx, r *Report) {
 				}
 				on := func(i int) bool {
 					if lf.from == nil {
-						return edgeDominates(b, b.Succs[i], st.Block())
+						blk := st.Block()
+						if len(arrivals) == 1 && arrivals[0].from == nil {
+							blk = arrivals[0].at
+						}
+						if edgeDominates(b, b.Succs[i], blk) {
+							return true
+						}
+						// the value sits in a struct variable (go/ssa keeps aggregates in memory):
+						// either the literal is built in the variable itself, or it is copied into it
+						var varAlloc *ssa.Alloc
+						var defBlock *ssa.BasicBlock
+						if len(arrivals) == 1 && arrivals[0].varStore != nil {
+							varAlloc, defBlock = arrivals[0].varAlloc, arrivals[0].varStore.Block()
+						} else if a, ok := fa.X.(*ssa.Alloc); ok && !a.Heap {
+							varAlloc, defBlock = a, st.Block()
+						}
+						if varAlloc != nil {
+							// assigned before the test and overwritten on the other branch: the value
+							// is the one read later only along this edge
+							killers := map[*ssa.BasicBlock]bool{}
+							var loads []*ssa.UnOp
+							var visit func(addr ssa.Value)
+							visit = func(addr ssa.Value) {
+								for _, ref := range *addr.Referrers() {
+									switch y := ref.(type) {
+									case *ssa.Store:
+										if y.Addr == addr && y.Block() != defBlock {
+											killers[y.Block()] = true
+										}
+									case *ssa.UnOp:
+										if y.Op == token.MUL && y.X == addr && addr == ssa.Value(varAlloc) {
+											loads = append(loads, y)
+										}
+									case *ssa.FieldAddr:
+										if y.X == addr {
+											visit(y)
+										}
+									}
+								}
+							}
+							visit(varAlloc)
+							if edgeDominates(b, b.Succs[i], defBlock) {
+								return true // assigned on this branch
+							}
+							if defBlock != b || len(loads) == 0 {
+								return false
+							}
+							for _, ld := range loads {
+								if ld.Block() == b {
+									return false // read before the test
+								}
+								with := reachableFrom(b, nil, nil, killers)
+								without := reachableFrom(b, b, b.Succs[i], killers)
+								if !with[ld.Block()] || without[ld.Block()] {
+									return false
+								}
+							}
+							return true
+						}
+						return false
 					}
 					// the value arrives at the merge over the edge from->at
 					if lf.from == b {
